@@ -632,6 +632,26 @@ fn gen_nr(thorough: bool, rng: &mut Rng) -> Result<(), String> {
                 emit_multi(&format!("nr/{}/two-omitted-{}{}", run, order[0], order[1]), &rd, &rc, &req, &hs, &p, &tapes, &nonce, &valid1, &reg1, &r, false, "omitted_in_one_of_two");
             }
         }
+        // (i') an honest proof whose Fiat-Shamir challenge has a leading zero byte (c < 2^248, one nonce in 256):
+        //      the challenge enters the pairing side as a group-order element and every byte position matters
+        //      (seventh seeding round: minimal big-endian bytes padded on the wrong side, consistently in prover
+        //      and verifier, so only an independent verifier sees it)
+        if run == 0 {
+            let lim = bn::BigNumber::from_hex(&format!("1{}", "0".repeat(62))).map_err(e)?;   // 2^248
+            let mut found = false;
+            for _ in 0..3000 {
+                let nz = new_nonce().map_err(e)?;
+                let p = build_proof(&rd, &holders[0], &req, Some(&reg1), &nz)?;
+                let ch = bn::BigNumber::from_dec(p.proof["aggregated_proof"]["c_hash"].as_str().unwrap_or("")).map_err(e)?;
+                if ch < lim {
+                    let r = verify_with(&rd, &req, &p.proof, &nz, Some(&rc), Some(&reg1));
+                    emit_case(&format!("nr/{}/short-challenge", run), &rd, &rc, &req, &holders[0], &p.proof, &p.ctape, &nz, &valid1, &reg1, &r, true, "challenge_with_leading_zero_byte", None);
+                    found = true;
+                    break;
+                }
+            }
+            if !found { return Err("nr: no challenge below 2^248 in 3000 proofs".into()); }
+        }
         // (j) the legacy field x_list.m2 shown to the DEFAULT verifier (legacy proofs not accepted):
         //     it must be ignored — the part stays linked to the primary proof's response for m2
         {
